@@ -34,7 +34,8 @@ const (
 	sTrip     = 23
 	sGridX    = 24
 	sGridY    = 25
-	numSGPR   = 32
+	sLoad     = 32 // s[32:39]: destination of generated scalar loads
+	numSGPR   = 40
 )
 
 type compiler struct {
@@ -286,6 +287,15 @@ func (p *Program) Compile() (*Compiled, error) {
 				c.waitFor(len(c.issued)-1, 1)
 				delete(c.pending, r)
 			}
+		case "sload":
+			_, dst := c.newValue()
+			smemOp := map[int]int{1: kasm.OpSLoadDword, 2: kasm.OpSLoadDwordx2, 4: kasm.OpSLoadDwordx4, 8: kasm.OpSLoadDwordx8}[o.N]
+			a.SMEM(smemOp, kasm.S(sLoad), kasm.S(sIn0+2*o.K), o.Imm)
+			a.Waitcnt(15, 7, 0)
+			for j := 1; j < o.N; j++ {
+				a.SOP2(kasm.OpSXorB32, kasm.S(sLoad), kasm.S(sLoad), kasm.S(sLoad+j))
+			}
+			a.VOP1(kasm.OpVMovB32, dst, kasm.S(sLoad))
 		case "lds":
 			x := c.use(o.A)
 			_, dst := c.newValue()
